@@ -63,7 +63,8 @@ class A:
     pass
 
 
-SHAPES = ["lit", "litb", "litf", "lits", "ulit", "int", "str", "gen", "seq", "dinc", "td", "ann", "sub", "tv", "u2", "utv", "never", "any"]
+SHAPES = ["lit", "litb", "litf", "lits", "ulit", "int", "str", "gen", "seq", "dinc", "td", "ann", "sub", "tv", "u2", "utv", "never", "any",
+          "annu", "annau"]
 
 
 def mk(shape: str, x):
@@ -100,6 +101,11 @@ def mk(shape: str, x):
         return MultiValuedValue([TypedValue(str), KnownValue(x)])
     if shape == "utv":
         return MultiValuedValue([TypeVarValue(T), TypedValue(int), TypedValue(str)])
+    if shape == "annu":  # Annotated[int | Literal[x], m]: an annotated union (what annotate_value builds for a union)
+        return AnnotatedValue(MultiValuedValue([TypedValue(int), KnownValue(x)]), [CustomCheckExtension(Gt(0))])
+    if shape == "annau":  # an annotated union one of whose members is itself annotated
+        return AnnotatedValue(MultiValuedValue([AnnotatedValue(TypedValue(int), [CustomCheckExtension(Gt(x))]), TypedValue(str)]),
+                              [CustomCheckExtension(Gt(5))])
     if shape == "never":
         return NO_RETURN_VALUE
     if shape == "any":
@@ -135,6 +141,15 @@ def _nested(v: Value) -> bool:
             if isinstance(sub, AnnotatedValue) and isinstance(sub.value, MultiValuedValue):
                 return True
     return False
+
+
+def _canon(v: Value) -> Value:
+    """Annotated[A | B, m] and Annotated[A, m] | Annotated[B, m] denote the same type but are different
+    objects; unite_values distributes the annotation, so laws "up to equality" are stated on that
+    canonical form for operands that are annotated unions."""
+    if isinstance(v, AnnotatedValue) and isinstance(v.value, MultiValuedValue):
+        return unite_values(v)
+    return v
 
 
 def _hash_ok(x: Value, y: Value) -> bool:
@@ -189,12 +204,19 @@ def h14_pair(x: int, y: int, tsel: int, osel: int, ow: int) -> bool:
         return skip()
     never = NO_RETURN_VALUE
     # idempotent, commutative, Never identity, no nesting
-    if not (unite_values(a, a) == a and unite_values(b, b) == b):
+    if not (unite_values(a, a) == _canon(a) and unite_values(b, b) == _canon(b)):
         return fin(False)
     if not (ab == ba):
         return fin(False)
-    if not (unite_values(never, a) == a and unite_values(a, never) == a):
+    if not (unite_values(never, a) == _canon(a) and unite_values(a, never) == _canon(a)):
         return fin(False)
+    # the two flattening sites agree: uniting equals building the union directly
+    if sa != "never" and sb != "never" and not (ab == MultiValuedValue([a, b]) or ab == _canon(a) == _canon(b)):
+        return fin(False)
+    # no member is an Annotated wrapped in another Annotated (annotations are merged)
+    for sub in (ab.vals if isinstance(ab, MultiValuedValue) else [ab]):
+        if isinstance(sub, AnnotatedValue) and isinstance(sub.value, AnnotatedValue):
+            return fin(False)
     if _nested(ab) or _nested(unite_values(ab, a)):
         return fin(False)
     if not (unite_values(ab, a) == ab and unite_values(ab, ba) == ab):
@@ -218,7 +240,7 @@ def h14_pair(x: int, y: int, tsel: int, osel: int, ow: int) -> bool:
     m = {T: _target(tsel, x)}
     for shape, v in ((sa, a), (sb, b)):
         sv = v.substitute_typevars(m)
-        if shape not in HAS_TV and not (sv == v):
+        if shape not in HAS_TV and not (sv == v or _canon(sv) == _canon(v)):
             return fin(False)
         for w in sv.walk_values():
             if isinstance(w, TypeVarValue) and w.typevar is T:
@@ -260,7 +282,7 @@ def cases(tier: str, seed: int) -> List[Case]:
     quick = tier == "quick"
     rng = 1 if quick else 2
     lo = 0 if quick else -2
-    pshapes = [s for s in SHAPES if s not in ("litf", "lits", "str", "dinc")] if quick else SHAPES
+    pshapes = [s for s in SHAPES if s not in ("litf", "lits", "str", "dinc", "td")] if quick else SHAPES
     for sa, sb in itertools.product(pshapes, repeat=2):
         out.append(Case("h14_pair", f"pair:{sa},{sb}", {"shapes": [sa, sb], "range": rng, "lo": lo}, timeout=90 if quick else 600,
                         twin=(sa <= sb)))
